@@ -613,10 +613,17 @@ static size_t unhex(const char *h, unsigned char **out)
 	return n;
 }
 
+static int tail_extra;
+
 static void tail(void)
 {
-	printf(" | cb=[%s] | ev=[%s] | n=%lu live=%lu X=%lu F=%lu L=%lu\n", cbbuf, evbuf, op_allocs, live_blocks, n_X, n_F,
+	printf(" | cb=[%s] | ev=[%s] | n=%lu live=%lu X=%lu F=%lu L=%lu", cbbuf, evbuf, op_allocs, live_blocks, n_X, n_F,
 	       n_L);
+	if (tail_extra)
+		printf(" # state=%d resetting=%d sent=%lu rxleft=%zu", (int)rsock.state, (int)rsock.is_resetting, sent_pdus,
+		       rxlen - rxoff);
+	tail_extra = 0;
+	printf("\n");
 }
 
 /* run library code with the harness flag off */
@@ -721,7 +728,7 @@ int main(void)
 			bits_to_addr(fam, bits, &ad);
 			LIB(rc = pfx_table_validate_r(&ptab[t], &reason, &rlen, asn, &ad, qlen, &st));
 			if (rc != PFX_SUCCESS) {
-				printf("%s res=[] rlen=%u reason=%s", prc(rc), rlen, reason ? "nonnull" : "null");
+				printf("%s res=[]", prc(rc));
 			} else {
 				printf("%s res=[", st == BGP_PFXV_STATE_VALID ? "VALID" :
 						    st == BGP_PFXV_STATE_NOT_FOUND ? "NOT_FOUND" : "INVALID");
@@ -729,19 +736,11 @@ int main(void)
 					fmt_rec(item, &reason[i]);
 					printf("%s%s", i ? " " : "", item);
 				}
-				printf("] rlen=%u reason=%s", rlen, reason ? "nonnull" : "null");
+				printf("]");
 			}
-			/* the caller releases the reason array through the allocator it installed; not part of the op's log */
-			{
-				size_t keep = evlen;
-				unsigned long na = op_allocs;
-
-				if (rc == PFX_SUCCESS || reason)
-					inj_free(reason);
-				evlen = keep;
-				evbuf[evlen] = 0;
-				op_allocs = na;
-			}
+			/* the caller releases the reason array through the allocator it installed */
+			if (rc == PFX_SUCCESS || reason)
+				inj_free(reason);
 			tail();
 		} else if (!strcmp(cmd, "pfree")) {
 			if (sscanf(line, "%*s %d", &t) != 1 || t < 0 || t > 1) {
@@ -766,16 +765,8 @@ int main(void)
 			if (ptab[t].ipv4)
 				LIB(rc = trie_get_children(ptab[t].ipv4, &arr, &n));
 			printf("rc=%d n=%u", rc, rc == 0 ? n : 0);
-			{
-				size_t keep = evlen;
-				unsigned long na = op_allocs;
-
-				if (rc == 0)
-					inj_free(arr);
-				evlen = keep;
-				evbuf[evlen] = 0;
-				op_allocs = na;
-			}
+			if (rc == 0)
+				inj_free(arr);
 			tail();
 		} else if (!strcmp(cmd, "kadd") || !strcmp(cmd, "krm")) {
 			struct spki_record r;
@@ -832,16 +823,9 @@ int main(void)
 					printf("%s%s", i ? " " : "", item);
 				}
 			printf("]");
-			{
-				size_t keep = evlen;
-				unsigned long na = op_allocs;
-
-				if (rc == SPKI_SUCCESS)
-					inj_free(res);
-				evlen = keep;
-				evbuf[evlen] = 0;
-				op_allocs = na;
-			}
+			/* the in-tree callers (bgpsec.c) release a non-NULL *result on SPKI_ERROR as well */
+			if (rc == SPKI_SUCCESS || res)
+				inj_free(res);
 			tail();
 		} else if (!strcmp(cmd, "kfree")) {
 			int rc;
@@ -908,8 +892,8 @@ int main(void)
 				rsock.request_session_id = false;
 			}
 			LIB(rc = rtr_sync(&rsock));
-			printf("rc=%d state=%d resetting=%d sent=%lu rxleft=%zu", rc, (int)rsock.state, (int)rsock.is_resetting,
-			       sent_pdus, rxlen - rxoff);
+			printf("rc=%d", rc);
+			tail_extra = 1;
 			tail();
 		} else if (!strcmp(cmd, "dump")) {
 			dump();
